@@ -72,6 +72,7 @@ class Optimizer(Logger, Citable):
         self._model_callback = None
         self._sigma_fraction = sigma_fraction
         self._fit_priors = {}
+        self._user_priors = {}
         self.fitting_parameters = []
         self.fitting_priors = []
 
@@ -120,6 +121,10 @@ class Optimizer(Logger, Citable):
         #                 fget.__get__(self),fset.__get__(self),
         #                         default_fit,default_bounds
         # for params in self._model.fittingParameters.values():
+
+        # Priors given through set_prior are kept; default priors are
+        # rebuilt from the current mode and bounds at every compile
+        self._fit_priors = dict(self._user_priors)
 
         self.fitting_parameters, \
             self.fitting_priors, \
@@ -490,7 +495,7 @@ class Optimizer(Logger, Citable):
             self.error('Fitting parameter %s does not exist', parameter)
             raise ValueError('Fitting parameter does not exist')
 
-        self._fit_priors[parameter] = prior
+        self._user_priors[parameter] = prior
 
     def chisq_trans(self, fit_params, data, datastd):
         """
